@@ -51,7 +51,7 @@ class Scheduler:
     """policy: 'random' | 'pct' | 'burst' | 'user_first' | 'user_last' | 'replay'"""
 
     def __init__(self, seed=0, policy="random", replay=None, pct_depth=2, pct_len=600, burst=0.8, trace=False,
-                 max_points=200000):
+                 max_points=200000, deque_points=True):
         self.cv = threading.Condition()
         self.threads = {}  # ident -> _T
         self.by_name = {}
@@ -72,6 +72,8 @@ class Scheduler:
         self.last = None
         self.pct_changes = sorted(self.rng.sample(range(1, pct_len), min(pct_depth, pct_len - 1))) if policy == "pct" else []
         self.enabled = True
+        self.deque_points = deque_points   # False = coarse gate (RexAsync's granularity): deque operations are not scheduling points
+        self.choice_labels = []
         self.fair = 40
         self.quiesce_waiter = None
         u = _T("user", is_user=True)
@@ -89,6 +91,7 @@ class Scheduler:
         self.replay_pos = 0
         self.replay_diverged = 0
         self.choices = []
+        self.choice_labels = []
         self.trace = []
         self.n_points = 0
         self.burst = burst
@@ -164,6 +167,7 @@ class Scheduler:
         ch = starved if starved is not None else self._choose(cands)
         ch.prio_starve = 0
         self.choices.append(ch.name)
+        self.choice_labels.append((ch.name, ch.label))
         self.last = ch
         ch.go = True
         self.running = ch
@@ -328,16 +332,22 @@ def make_primitives(S: Scheduler):
                 while not self.t.go:
                     S.cv.wait()
                 self.t.waiting, self.t.cond = False, None
+            first = True   # the initial park above already was the scheduling point of the first dequeue
             try:
                 while True:
-                    if not S.enabled:
+                    if first and S.enabled:
+                        first = False
+                        if not self.q:
+                            continue
+                    elif not S.enabled:
                         # free-running fallback after disable(): behave like a normal worker
                         while not self.q:
                             threading.Event().wait(0.001)
                             if self._shutdown:
                                 return
-                    elif not self.q:
-                        S.point("dequeue", cond=lambda: len(self.q) > 0)
+                    else:
+                        first = False
+                        S.point("dequeue", cond=lambda: len(self.q) > 0)   # every task start is a scheduling point
                         if not self.q:
                             continue
                     if S.aborting:
@@ -384,7 +394,7 @@ def make_primitives(S: Scheduler):
                 own.add(t.name)
                 if len(own) > 1:
                     self._shared = True
-            if self._shared:
+            if self._shared and S.deque_points:
                 S.point("deque." + op)
 
         def append(self, x):
